@@ -3,12 +3,12 @@ import hashlib
 import json
 import os
 
-from . import kernels, kernels_group, tables
+from . import kernels, kernels_group, tables, guards
 
 
 def run(repo, outdir):
     report = {'failed': {}, 'parts': {}}
-    for name, mod in (('kernels', kernels), ('kernels_group', kernels_group), ('tables', tables)):
+    for name, mod in (('kernels', kernels), ('kernels_group', kernels_group), ('tables', tables), ('guards', guards)):
         r = mod.extract(repo, outdir)
         report['parts'][name] = r
         for k, v in r.get('failed', {}).items():
